@@ -5,7 +5,7 @@ From Coq Require Import NArith List Bool.
 Import ListNotations.
 From Coq Require Import ZArith.
 From CXV Require Import Gen.TokTy Gen.ParserTables Parse.Balanced Gen.Blocks Parse.BlocksSM.
-From CXV Require Import Base.Regex Base.Cost Gen.LexRules Lex.PlyLoop Gen.StreamTables Stream.TokBuf Fmt.TokFmt PP.Filters Misc.ReprModel Gen.Schema Parse.Fold Parse.Declarator Parse.DeclSpec Parse.EnumList Parse.BaseClause Parse.NsHeader Parse.Specs Parse.VarStmt Parse.FnTail Parse.Init Parse.Members Parse.MethodTail Parse.Template Parse.PQName Parse.Using Parse.EnumDecl Parse.ClassEnum Parse.TemplateArg Parse.CtorDtor.
+From CXV Require Import Base.Regex Base.Cost Gen.LexRules Lex.PlyLoop Gen.StreamTables Stream.TokBuf Fmt.TokFmt PP.Filters Misc.ReprModel Gen.Schema Parse.Fold Parse.Declarator Parse.DeclSpec Parse.EnumList Parse.BaseClause Parse.NsHeader Parse.Specs Parse.VarStmt Parse.FnTail Parse.Init Parse.Members Parse.MethodTail Parse.Template Parse.PQName Parse.Using Parse.EnumDecl Parse.ClassEnum Parse.TemplateArg Parse.CtorDtor Parse.ParamsX.
 Open Scope N_scope.
 
 Definition nlen {A} (l : list A) : N := N.of_nat (length l).
@@ -699,8 +699,22 @@ Definition run_ctor_dtor (args : list N) : list N :=
   | _ => [1; 0]
   end.
 
+(* 103: a parameter list with defaults and packs (after the '(').
+   Output: 0, rest length, vararg, count, per parameter: pack, 0 | 1 name, <type>, 0 | 1 length tokens *)
+Definition run_params_x (args : list N) : list N :=
+  let toks := dec_tks args in
+  match params_x (4 * length toks + 8) toks with
+  | DOk (ps, va, rest) =>
+      0 :: nlen rest :: bN va :: nlen ps ::
+        flat_map (fun p => bN (xp_pack p) :: (match xp_name p with Some n => [1; n] | None => [0] end)
+                           ++ enc_ty (xp_ty p)
+                           ++ match xp_default p with Some v => 1 :: nlen v :: enc_tks v | None => [0] end) ps
+  | DErr e => [1; e]
+  end.
+
 Definition run_case (cmd : N) (args : list N) : list N :=
   match cmd, args with
+  | 103, _ => run_params_x args
   | 102, _ => run_ctor_dtor args
   | 101, _ => run_tspec args
   | 100, _ => run_class_enum args
